@@ -274,3 +274,24 @@ def decl_search():
             return {"confirmed": True, "input": {"statement": stmt}, "actual": {"bind": got[0], "result": got[1]}, "expected": {"bind": bindc, "result": res},
                     "how": "real parser; suffix of a function statement (the heading shows `bind(<label>)`)"}
     return None
+
+
+def heading_cases():
+    """the heading of a function shows a RESULT clause exactly when the source has one (Fortran names are case-insensitive: `function Foo(x)` with `integer :: foo` has none)"""
+    import os, html as _html
+    from bounded import site
+    src = ("module m\n  implicit none\ncontains\n  function Foo(x)\n    !! no result clause\n    integer :: x\n    integer :: foo\n    foo = x\n  end function Foo\n"
+           "  function bar(x) result(Res)\n    !! with a result clause\n    integer :: x\n    integer :: res\n    res = x\n  end function bar\nend module m\n")
+    with site.site({"src/m.f90": src}, "src_dir: ./src\noutput_dir: ./doc\ngraph: false\nsearch: false\n") as (pd, status):
+        if not status.startswith("ok"):
+            return {"confirmed": True, "input": {"source": src}, "actual": status[:300], "expected": "ok", "how": "full run"}
+        bad = []
+        for page, want in (("proc/foo.html", False), ("proc/bar.html", True)):
+            p = os.path.join(pd, "doc", page)
+            text = _html.unescape(re.sub(r"<[^>]+>", " ", open(p, encoding="utf-8").read())) if os.path.exists(p) else ""
+            has = bool(re.search(r"result\s*\(", text, re.I))
+            if has != want:
+                bad.append(f"{page}: the heading {'shows' if has else 'lacks'} a RESULT clause, the source {'has one' if want else 'has none'}")
+        if bad:
+            return {"confirmed": True, "input": {"source": src}, "actual": bad, "expected": "RESULT clause shown iff written", "how": "full run; text of the procedure pages"}
+    return None
